@@ -15,13 +15,15 @@ MCConfigs == {[n |-> n, block |-> b, retries |-> r, preload |-> Modes[m].p, rele
 
 \* ---- alphabets ----
 ErrSyms == {"c_refused", "c_timeout", "s_oserr", "r_timeout", "r_reset", "r_eof", "r_garbage", "r_ssl"}
-MCAll   == ConnectSyms \cup SendSyms \cup RecvSyms \cup ReplySyms
+MCAll   == NewSyms \cup ConnectSyms \cup SendSyms \cup RecvSyms \cup ReplySyms
 \* one representative per class (used for later attempts / later requests in the quick tier)
-MCReps  == {"c_refused", "c_boom", "s_epipe", "s_oserr", "r_timeout", "r_eof", "r_boom",
+MCReps  == {"n_invalid", "n_boom", "c_refused", "c_boom", "s_epipe", "s_oserr", "r_timeout", "r_eof", "r_boom",
             "ok_ka", "ok_close", "s503_ka", "r302_ka", "short", "b_boom"}
-MCSmall == {"c_refused", "r_eof", "r_boom", "ok_ka", "ok_close", "s503_ka", "r302_ka", "short"}
+MCSmall == {"n_invalid", "c_refused", "r_eof", "r_boom", "ok_ka", "ok_close", "s503_ka", "r302_ka", "short"}
 MCTiny  == {"r_eof", "ok_ka", "ok_close", "short", "r302_ka"}
+MCTinyN == {"n_invalid", "r_eof", "ok_ka", "ok_close", "short", "r302_ka"}
 MCMicro == {"r_eof", "ok_ka", "short"}
+MCMicroN == {"n_invalid", "r_eof", "ok_ka", "short"}
 MCDispMicro == {"read", "release", "stream"}
 MCDispAll == {"read", "read2rel", "release", "drain", "close", "stream"}
 MCDispSmall == {"read", "release", "close", "stream"}
@@ -37,16 +39,21 @@ MCMutFullNoClose == {"M_FullNoClose"}
 MCMutExcept == {"M_ExceptDropsHTTPException"}
 MCMutReleaseKeeps == {"M_ReleaseKeepsConn"}
 MCMutDropped == {"M_DroppedNotClosed"}
+MCReleaseOnlyIfConn == {"ReleaseOnlyIfConn"}
+MCPutWithoutCheckout == {"PutWithoutCheckout"}
 
 \* ---- sharding ----
-SymSeq == <<"c_refused", "c_timeout", "c_boom", "s_epipe", "s_reset", "s_oserr", "s_boom", "r_timeout", "r_reset",
+SymSeq == <<"n_invalid", "n_boom", "c_refused", "c_timeout", "c_boom", "s_epipe", "s_reset", "s_oserr", "s_boom", "r_timeout", "r_reset",
             "r_eof", "r_garbage", "r_ssl", "r_boom", "ok_ka", "ok_close", "s503_ka", "s503_close", "r302_ka",
             "r302_close", "short", "b_boom", "b_reset", "b_timeout", "x_stale">>
 SymIdx(s) == CHOOSE i \in 1..Len(SymSeq) : SymSeq[i] = s
 RIdx(r) == CASE r = "F" -> 0 [] r = "0" -> 1 [] r = "1" -> 2 [] OTHER -> 3
 CfgIdx(c) == RIdx(c.retries) + 5 * (IF c.preload THEN 1 ELSE 0) + 3 * (IF c.release THEN 1 ELSE 0)
              + 7 * c.n + (IF c.block THEN 11 ELSE 0) + (IF c.route = "fwd" THEN 13 ELSE 0)
-ShardC == (hist = <<>> /\ att # <<>>) => ((CfgIdx(cfg) + 3 * SymIdx(att[1])) % ShardK = ShardS)
+\* histories are assigned to shards by (configuration, first outcome); those that begin with a request that fails
+\* before any checkout (no outcome) by configuration alone
+ShardC == /\ (hist = <<>> /\ att # <<>>) => ((CfgIdx(cfg) + 3 * SymIdx(att[1])) % ShardK = ShardS)
+          /\ (hist # <<>> /\ hist[1].how = "badarg") => (CfgIdx(cfg) % ShardK = ShardS)
 
 \* ---- emission ----
 Fin == [qlen |-> Len(queue),
